@@ -73,7 +73,8 @@ LEVEL = {
             'note': _TB + 'net/http is trusted to deliver the handler\'s bytes and headers; url.QueryEscape / ParseForm are exercised, not modelled.'},
     'C16': {'text': 'Theorems: copy-like commands never answer diff and answer not-exist only for a missing source; no success => existing destination untouched; comparison verdicts are ok/diff/err. '
                     'no panic is proved for fetch (every id, window, contents), view, view-raw, diff, sum and sum-diff on files whose archives are well-formed rings; for copy / sum-copy a panic can only '
-                    'originate in the library batch update (panic-free by C02/C03 theorems; that composition is not a single theorem). The whole fault matrix is run against the real commands.',
+                    'originate in the library batch update, and (C16_copy_never_panics) on every destination content a history of updates can produce it does not: copy / sum-copy end in success or an error. '
+                    'The whole fault matrix is run against the real commands.',
             'design_ref': '5 C16',
             'note': _TB + 'A read-only destination directory cannot be exercised as root and is not part of the matrix.'},
     'C18': {'text': 'Theorems: view emits one record per slot of each selected series with instant from+k*step and the k-th fetched value, archive then time order; '
